@@ -1,6 +1,6 @@
-from xeng import progs2
+from xeng import progs, progs2, progs3
 from . import _common
 
 
 def run(out):
-    _common.run(out, 'C05', x_corpora=[(progs2.c05_corpus, 'c05')], s_props=['C05'])
+    _common.run(out, 'C05', x=[dict(fn=progs2.c05_corpus, name='c05')], s_props=['C05'])
